@@ -907,8 +907,6 @@ func c08respond(p *Prog, r *Report) {
 		}
 		bad := false
 		if lp != nil {
-			seen := map[*ssa.BasicBlock]bool{}
-			var stack []*ssa.BasicBlock
 			after := false
 			hit := false
 			for _, in := range c.Block().Instrs {
@@ -921,29 +919,21 @@ func c08respond(p *Prog, r *Report) {
 				}
 			}
 			if !hit {
-				stack = append(stack, c.Block().Succs...)
-			}
-			for len(stack) > 0 && !bad {
-				x := stack[len(stack)-1]
-				stack = stack[:len(stack)-1]
-				if seen[x] {
-					continue
-				}
-				seen[x] = true
-				if x == lp.head {
-					bad = true
-					break
-				}
-				h := false
-				for _, in := range x.Instrs {
-					if isDelete(in) {
-						h = true
+				forwardFrom(c.Block(), func(x *ssa.BasicBlock) bool {
+					if bad {
+						return false
 					}
-				}
-				if h {
-					continue
-				}
-				stack = append(stack, x.Succs...)
+					if x == lp.head {
+						bad = true
+						return false
+					}
+					for _, in := range x.Instrs {
+						if isDelete(in) {
+							return false
+						}
+					}
+					return true
+				})
 			}
 		}
 		r.Check(!bad, rule, fmt.Sprintf("processAccepted:respond#%d:then-delete", i), p.ipos(c), fnName(fn), "the promise is removed before the next receipt is processed",
